@@ -576,6 +576,13 @@ def parseHStep (hp : HParse) (st : String) : HParse :=
       let hf := if pid == "selfraw" then { hf with provider := none, isMethod := false } else hf
       { hp with ops := hp.ops ++ [.decorate fid hf] }
     | _, _ => { hp with err := hp.err <|> some "bad-op" }
+  | ["I", newfid, basefid, pid] =>
+    -- the same decorated method reached through ANOTHER instance of its class, whose mapping comes from provider `pid`:
+    -- nothing but the provider differs, and nothing is shared between the two (the model's state has no such component)
+    let base := hp.ops.foldl (fun acc op => match op with | .decorate f d => if f == basefid then some d else acc | _ => acc) none
+    match base with
+    | some d => { hp with ops := hp.ops ++ [.decorate newfid { d with provider := some pid }] }
+    | none => { hp with err := hp.err <|> some "bad-op" }
   | ["C", fid, names, vals, ret] =>
     let ns := splitSemi names
     let vs := (splitSemi vals).map parseHValue
